@@ -32,6 +32,7 @@ type World struct {
 	mu         sync.Mutex
 	start      time.Time
 	srv        server.Server
+	rawKeys    map[string]string // raw mux mode: protocol session id -> harness session key
 	srvNode    *simnet.Node
 	clients    []*clientRT
 	sessions   map[string]*sessRT // "c<ci>s<si>" -> runtime
@@ -344,7 +345,40 @@ func (w *World) dial(c *clientRT, key string, udpAssoc bool) (net.Conn, error) {
 	if udpAssoc {
 		network = "udp"
 	}
+	if w.Spec.Server.RawMux {
+		mux := client.VerifMux(c.cli)
+		if mux == nil {
+			return nil, fmt.Errorf("HARNESS raw mux mode: the client has no multiplexer")
+		}
+		conn, err := mux.DialContext(ctx)
+		if err != nil {
+			return conn, err
+		}
+		id := rawSessionID(conn)
+		if id == "" {
+			return nil, fmt.Errorf("HARNESS raw mux mode: cannot identify the session of %T", conn)
+		}
+		w.mu.Lock()
+		if w.rawKeys == nil {
+			w.rawKeys = map[string]string{}
+		}
+		if prev, dup := w.rawKeys[id]; dup {
+			w.mu.Unlock()
+			return nil, fmt.Errorf("HARNESS raw mux mode: session id %s drawn twice (%s, %s)", id, prev, key)
+		}
+		w.rawKeys[id] = key
+		w.mu.Unlock()
+		return conn, nil
+	}
 	return c.cli.DialContext(ctx, simAddr{network, key + ".sim:80"})
+}
+
+// rawSessionID names the protocol session behind a connection taken straight from a Mux.
+func rawSessionID(conn net.Conn) string {
+	if s, ok := conn.(*protocol.Session); ok {
+		return s.ToSessionInfo().GetId()
+	}
+	return ""
 }
 
 // enableMieruLog turns mieru's own logging on (debugging aid; off by default).
